@@ -210,6 +210,11 @@ def gen_source(program, header=True):
     kws = ", ".join(f"{k}={_val_src(v, pre)}" for k, v in pa.items())
     lines += pre
     lines.append(f"pb = ps.SchedulingProblem({kws})")
+    if program.get("early_solver") is not None:
+        # the solver object exists before anything is declared in the problem (it reads the problem when it is
+        # initialised, i.e. at the first solve / initialize / export)
+        ekw = "".join(f", {k}={v!r}" for k, v in program["early_solver"].items())
+        lines.append(f"early_solver = ps.SchedulingSolver(problem=pb{ekw})")
     n_anon = 0
     for d in program["decls"]:
         if d["k"] == "new":
